@@ -2,6 +2,10 @@
 """Print the sub-agent brief for one property (only the property text is given, nothing from /verif's machinery)."""
 import json, sys
 pid = sys.argv[1]
+# round 3 and later: a generic nudge away from the obvious core of the property (nothing about /verif is revealed)
+extra = ""
+if len(sys.argv) > 2 and sys.argv[2] == "wide":
+    extra = " Look AWAY from the obvious core of the property: prefer flag / preference combinations, rarely used operators or operator flags, interactions between two operators, state that is kept between documents or files, unusual but valid input syntax, and code that only runs for one input or output format."
 p = [json.loads(l) for l in open('/verif/properties.jsonl') if json.loads(l)['id'] == pid][0]
 wt = "/tmp/wt-%s" % pid
 out = "/tmp/seed-%s" % pid
@@ -21,7 +25,7 @@ It is meant to hold: {p['quantifier']['text']}
 YOUR TASK: produce TWO independent, realistic source changes to the yq code (each the kind of plausible regression/refactoring slip a maintainer could make - NOT an obvious sabotage) such that, for each change separately:
   1. the code still compiles, and the existing test suite STILL PASSES unchanged (run it and confirm; do not edit any *_test.go or golden files);
   2. the property above is BROKEN by the change;
-  3. the breakage needs something specific to manifest - e.g. an unusual input shape, a multi-step sequence of operations, a particular fault/crash point or interleaving, a specific flag combination, or two cooperating code sites that each look fine alone - rather than something every ordinary use would expose at once. Prefer subtle over blatant: a change that breaks only some region of the input space is ideal. The two changes should be in different code sites / mechanisms.
+  3. the breakage needs something specific to manifest - e.g. an unusual input shape, a multi-step sequence of operations, a particular fault/crash point or interleaving, a specific flag combination, or two cooperating code sites that each look fine alone - rather than something every ordinary use would expose at once. Prefer subtle over blatant: a change that breaks only some region of the input space is ideal. The two changes should be in different code sites / mechanisms.{extra}
   4. you provide a demonstration that FAILS with the change applied and PASSES without it: either a Go test file (put a copy in {out}; it may be dropped into pkg/yqlib or cmd of the worktree to run) or a small shell script that builds the yq binary from a given tree (usage: demo.sh <repo-dir>) and exits non-zero when the property is violated. Verify both directions yourself (with the change: fails; `git stash`/without: passes).
 
 Deliverables, in {out}/:
